@@ -76,7 +76,7 @@ RoundDec(x0, p) ==
 DigCps(ds) == [i \in 1..Len(ds) |-> 48 + ds[i]]
 RECURSIVE NatDigits(_)
 NatDigits(n) == IF n < 10 THEN <<n>> ELSE NatDigits(n \div 10) \o <<n % 10>>
-\* the text $string prints: plain decimal for 1e-6 <= |x| < 1e21, exponent form otherwise (as encoding/json)
+\* the text $string prints: plain decimal for 1e-6 <= |x| < 1e21, exponent form d.ddde+N / d.ddde-N otherwise (the ES6 number-to-string layout)
 DecText(x0) ==
     LET x == DecNorm(x0)
         n == Len(x.ds)
@@ -86,132 +86,165 @@ DecText(x0) ==
         ELSE IF mag > 21 \/ mag < 0 - 5 THEN
              \* d.ddde[+-]xx
              sign \o <<48 + x.ds[1]>> \o (IF n > 1 THEN <<46>> \o DigCps(Tail(x.ds)) ELSE <<>>) \o <<101>> \o (IF mag - 1 < 0 THEN <<45>> ELSE <<43>>)
-                  \o (LET ex == NatDigits(IF mag - 1 < 0 THEN 1 - mag ELSE mag - 1) IN DigCps(IF Len(ex) = 1 THEN <<0>> \o ex ELSE ex))
+                  \o DigCps(NatDigits(IF mag - 1 < 0 THEN 1 - mag ELSE mag - 1))
         ELSE IF x.e >= 0 THEN sign \o DigCps(Shl(x.ds, x.e))
         ELSE IF mag > 0 THEN sign \o DigCps(SubSeq(x.ds, 1, mag)) \o <<46>> \o DigCps(SubSeq(x.ds, mag + 1, n))
         ELSE sign \o <<48, 46>> \o DigCps(Zeros(0 - mag)) \o DigCps(x.ds)
 
-\* ---- pictures (XPath decimal-format picture grammar, default decimal format) ----
-IsDigC(c) == c >= 48 /\ c <= 57
-IsPicDigit(c) == IsDigC(c) \/ c = 35                      \* 0-9 and #
-IsActive(c) == IsPicDigit(c) \/ c \in {46, 44}            \* digits, decimal separator, grouping separator
-Count(s, P(_)) == Cardinality({i \in 1..Len(s) : P(s[i])})
-IndexSet(s, P(_)) == {i \in 1..Len(s) : P(s[i])}
+\* ---- pictures (XPath 3.1 decimal-format picture grammar) under a decimal format F ----
+\* F = [dec, grp, exp, minus, zero, digit, psep : code points;  pct, pml : code-point sequences]
+DefaultFormat == [dec |-> 46, grp |-> 44, exp |-> 101, minus |-> 45, zero |-> 48, digit |-> 35, psep |-> 59, pct |-> <<37>>, pml |-> <<8240>>]
+FormatKeys == {"dec", "grp", "exp", "minus", "zero", "digit", "psep", "pct", "pml"}
+\* a format is usable when its characters are pairwise distinct and its digits do not collide with them
+FormatSane(F) == LET singles == <<F.dec, F.grp, F.exp, F.minus, F.digit, F.psep>> IN
+                 /\ \A i, j \in 1..6 : i < j => singles[i] # singles[j]
+                 /\ \A i \in 1..6 : singles[i] < F.zero \/ singles[i] > F.zero + 9
+                 /\ F.pct # <<>> /\ F.pml # <<>> /\ F.pct # F.pml
+                 /\ \A s \in {F.pct, F.pml} : \A k \in 1..Len(s) : (s[k] < F.zero \/ s[k] > F.zero + 9) /\ \A i \in 1..6 : singles[i] # s[k]
+
 MinS(S) == CHOOSE x \in S : \A y \in S : x <= y
 MaxS(S) == CHOOSE x \in S : \A y \in S : y <= x
+Count(s, P(_)) == Cardinality({i \in 1..Len(s) : P(s[i])})
+IndexSet(s, P(_)) == {i \in 1..Len(s) : P(s[i])}
+Occurrences(s, w) == {i \in 1..(Len(s) - Len(w) + 1) : SubSeq(s, i, i + Len(w) - 1) = w}
 
-\* split at ';'
-SubPictures(pic) == LET semis == IndexSet(pic, LAMBDA c : c = 59) IN
-                    IF semis = {} THEN <<pic>>
-                    ELSE IF Cardinality(semis) = 1 THEN LET i == MinS(semis) IN <<SubSeq(pic, 1, i - 1), SubSeq(pic, i + 1, Len(pic))>>
-                    ELSE <<>>
+\* split at the pattern separator
+SubPictures(pic, F) == LET semis == IndexSet(pic, LAMBDA c : c = F.psep) IN
+                       IF semis = {} THEN <<pic>>
+                       ELSE IF Cardinality(semis) = 1 THEN LET i == MinS(semis) IN <<SubSeq(pic, 1, i - 1), SubSeq(pic, i + 1, Len(pic))>>
+                       ELSE <<>>
 
-\* analysis of one sub-picture: [ok ("yes" | "no" | "unsure"), prefix, suffix, minInt, minFrac, maxFrac, intGroups (positions from the
-\* right), regular group size, scale (0, 2, 3 : power of ten for percent / per-mille), expDigits (0 = none), scalingFactor]
-Analyse(sp) ==
-    LET act == IndexSet(sp, IsActive)
-        pct == Count(sp, LAMBDA c : c = 37)   pml == Count(sp, LAMBDA c : c = 8240)
-    IN  IF sp = <<>> THEN [ok |-> "no"]
-        ELSE IF act = {} THEN [ok |-> "no"]                                            \* the mantissa needs a digit
+\* analysis of one sub-picture.  ok = "yes" | "no" | "unsure" (the grammar's corner the model leaves alone:
+\* an exponent separator outside the digits, where XPath makes it a passive character)
+Analyse(sp, F) ==
+    LET IsDigC(c) == c >= F.zero /\ c <= F.zero + 9
+        IsPicDigit(c) == IsDigC(c) \/ c = F.digit
+        IsActive(c) == IsPicDigit(c) \/ c = F.dec \/ c = F.grp
+        act == IndexSet(sp, IsActive)
+        pct == Cardinality(Occurrences(sp, F.pct))   pml == Cardinality(Occurrences(sp, F.pml))
+    IN  IF sp = <<>> \/ act = {} THEN [ok |-> "no"]                                  \* a sub-picture needs a digit sign
         ELSE LET first == MinS(act)
-                 \* an exponent part: 'e' followed by digits, directly after the mantissa's active part
                  lastAct == MaxS(act)
-                 eIdx == {i \in first..lastAct : sp[i] = 101}
+                 eIdx == {i \in first..lastAct : sp[i] = F.exp}
+                 eAny == IndexSet(sp, LAMBDA c : c = F.exp)
                  hasE == eIdx # {}
                  mantEnd == IF hasE THEN MinS(eIdx) - 1 ELSE lastAct
                  expPart == IF hasE THEN SubSeq(sp, MinS(eIdx) + 1, lastAct) ELSE <<>>
                  mant == SubSeq(sp, first, mantEnd)
                  prefix == SubSeq(sp, 1, first - 1)
                  suffix == SubSeq(sp, lastAct + 1, Len(sp))
-                 dots == IndexSet(mant, LAMBDA c : c = 46)
+                 dots == IndexSet(mant, LAMBDA c : c = F.dec)
                  ip == IF dots = {} THEN mant ELSE SubSeq(mant, 1, MinS(dots) - 1)
                  fp == IF dots = {} THEN <<>> ELSE SubSeq(mant, MinS(dots) + 1, Len(mant))
                  minInt0 == Count(ip, IsDigC)
                  minFrac0 == Count(fp, IsDigC)
                  maxFrac0 == Count(fp, IsPicDigit)
-                 \* XPath 4.7.4: defaults when no digit is mandatory
-                 minInt1 == IF minInt0 = 0 /\ maxFrac0 = 0 /\ ~hasE THEN 1 ELSE IF hasE /\ minInt0 = 0 /\ Count(ip, LAMBDA c : c = 35) > 0 THEN 1 ELSE minInt0
-                 minFrac1 == IF minInt0 = 0 /\ maxFrac0 = 0 /\ hasE THEN 1 ELSE minFrac0
-                 maxFrac1 == IF minInt0 = 0 /\ maxFrac0 = 0 /\ hasE THEN 1 ELSE maxFrac0
+                 \* XPath 4.7.4: adjustments when no digit is mandatory
+                 noneGiven == minInt0 = 0 /\ maxFrac0 = 0
+                 minInt1 == IF noneGiven /\ ~hasE THEN 1 ELSE IF hasE /\ minInt0 = 0 /\ Count(ip, LAMBDA c : c = F.digit) > 0 THEN 1 ELSE minInt0
+                 minFrac1 == IF noneGiven /\ hasE THEN 1 ELSE minFrac0
+                 maxFrac1 == IF noneGiven /\ hasE THEN 1 ELSE maxFrac0
                  minFrac2 == IF minInt1 = 0 /\ minFrac1 = 0 THEN 1 ELSE minFrac1
                  maxFrac2 == IF maxFrac1 < minFrac2 THEN minFrac2 ELSE maxFrac1
-                 \* grouping positions in the integer part: number of digit places to the right of each separator
-                 commas == IndexSet(ip, LAMBDA c : c = 44)
+                 \* integer grouping positions: digit places to the right of each separator
+                 commas == IndexSet(ip, LAMBDA c : c = F.grp)
                  groups == {Count(SubSeq(ip, i + 1, Len(ip)), IsPicDigit) : i \in commas}
                  g == IF groups = {} THEN 0 ELSE MinS(groups)
                  regular == groups # {} /\ groups = {g * k : k \in 1..Cardinality(groups)}
+                 \* XPath 3.1 adds: the digits left of the leftmost separator are at most one group; 3.0 does not - both readings are allowed
+                 leftDigits == IF commas = {} THEN 0 ELSE Count(SubSeq(ip, 1, MinS(commas) - 1), IsPicDigit)
+                 \* fraction grouping positions: digit places to the left of each separator
+                 fcommas == IndexSet(fp, LAMBDA c : c = F.grp)
+                 fgroups == {Count(SubSeq(fp, 1, i - 1), IsPicDigit) : i \in fcommas}
                  \* validity
                  passiveInside == \E i \in first..lastAct : ~IsActive(sp[i]) /\ ~(hasE /\ i = MinS(eIdx))
-                 badComma == (ip # <<>> /\ ip[Len(ip)] = 44) \/ (fp # <<>> /\ fp[1] = 44) \/ (\E i \in 1..Len(mant) - 1 : mant[i] = 44 /\ mant[i + 1] = 44) \/ (ip # <<>> /\ ip[1] = 44)
-                 intOrder == \E i, j \in 1..Len(ip) : i < j /\ IsDigC(ip[i]) /\ ip[j] = 35
-                 fracOrder == \E i, j \in 1..Len(fp) : i < j /\ fp[i] = 35 /\ IsDigC(fp[j])
-                 fracComma == \E i \in 1..Len(fp) : fp[i] = 44
-             IN  IF Cardinality(dots) > 1 \/ pct + pml > 1 \/ Count(mant, IsPicDigit) = 0 \/ passiveInside \/ badComma \/ intOrder \/ fracOrder
-                    \/ Cardinality(eIdx) > 1 \/ (hasE /\ (pct + pml > 0 \/ expPart = <<>> \/ \E i \in 1..Len(expPart) : ~IsDigC(expPart[i])))
+                 badComma == (ip # <<>> /\ ip[Len(ip)] = F.grp) \/ (fp # <<>> /\ fp[1] = F.grp) \/ (\E i \in 1..Len(mant) - 1 : mant[i] = F.grp /\ mant[i + 1] = F.grp)
+                 intOrder == \E i, j \in 1..Len(ip) : i < j /\ IsDigC(ip[i]) /\ ip[j] = F.digit
+                 fracOrder == \E i, j \in 1..Len(fp) : i < j /\ fp[i] = F.digit /\ IsDigC(fp[j])
+             IN  IF Cardinality(dots) > 1 \/ pct > 1 \/ pml > 1 \/ (pct > 0 /\ pml > 0) \/ Count(mant, IsPicDigit) = 0 \/ badComma \/ intOrder \/ fracOrder
+                    \/ (~hasE /\ passiveInside)
                  THEN [ok |-> "no"]
-                 \* 'e' elsewhere in the sub-picture, digits other than 0 in the picture, grouping in the fraction: not modelled
-                 ELSE IF (\E i \in 1..Len(prefix) : prefix[i] = 101) \/ (\E i \in 1..Len(suffix) : suffix[i] = 101) \/ fracComma
-                         \/ (\E i \in 1..Len(sp) : IsDigC(sp[i]) /\ sp[i] # 48)
+                 \* exponent separators: decided only when the single one in the sub-picture sits between digit signs
+                 ELSE IF eAny # {} /\ ~(Cardinality(eAny) = 1 /\ hasE /\ expPart # <<>> /\ IsPicDigit(sp[MinS(eIdx) - 1]) /\ \A i \in 1..Len(expPart) : IsDigC(expPart[i]))
                  THEN [ok |-> "unsure"]
+                 ELSE IF hasE /\ (pct + pml > 0 \/ passiveInside) THEN [ok |-> "no"]
                  ELSE [ok |-> "yes", prefix |-> prefix, suffix |-> suffix, minInt |-> minInt1, minFrac |-> minFrac2, maxFrac |-> maxFrac2,
-                       groups |-> groups, gsize |-> IF regular THEN g ELSE 0, scale |-> IF pct > 0 THEN 2 ELSE IF pml > 0 THEN 3 ELSE 0,
+                       groups |-> groups, gsize |-> IF regular THEN g ELSE 0, leftDigits |-> leftDigits, fgroups |-> fgroups,
+                       scale |-> IF pct > 0 THEN 2 ELSE IF pml > 0 THEN 3 ELSE 0,
                        expDigits |-> Len(expPart), sf |-> minInt0]
 
-PictureValid(pic) ==
-    LET sps == SubPictures(pic) IN
-    IF pic = <<>> \/ sps = <<>> THEN "no"
-    ELSE LET as == [i \in 1..Len(sps) |-> Analyse(sps[i]).ok] IN
+PictureValid(pic, F) ==
+    LET sps == SubPictures(pic, F) IN
+    IF ~FormatSane(F) THEN "unsure"
+    ELSE IF pic = <<>> \/ sps = <<>> THEN "no"
+    ELSE LET as == [i \in 1..Len(sps) |-> Analyse(sps[i], F).ok] IN
          IF \E i \in 1..Len(as) : as[i] = "no" THEN "no" ELSE IF \E i \in 1..Len(as) : as[i] = "unsure" THEN "unsure" ELSE "yes"
 
-\* parse the numeral in the middle of the output: digits with ',' separators, optional '.', optional e[-]digits
-\* returns [ok, idigits (with separators removed), seps (positions from the right), fdigits, hasDot, ex (integer exponent), exDigits]
-ParseNumeralOut(s) ==
-    LET eIdx == IndexSet(s, LAMBDA c : c = 101)
+\* the numeral in the middle of the output: digits with grouping separators, optional decimal separator, optional exponent
+ParseNumeralOut(s, F) ==
+    LET IsDigC(c) == c >= F.zero /\ c <= F.zero + 9
+        eIdx == IndexSet(s, LAMBDA c : c = F.exp)
         mant == IF eIdx = {} THEN s ELSE SubSeq(s, 1, MinS(eIdx) - 1)
         ex == IF eIdx = {} THEN <<>> ELSE SubSeq(s, MinS(eIdx) + 1, Len(s))
-        exNeg == ex # <<>> /\ ex[1] = 45
+        exNeg == ex # <<>> /\ ex[1] = F.minus
         exDs == IF exNeg THEN Tail(ex) ELSE ex
-        dots == IndexSet(mant, LAMBDA c : c = 46)
+        dots == IndexSet(mant, LAMBDA c : c = F.dec)
         ip == IF dots = {} THEN mant ELSE SubSeq(mant, 1, MinS(dots) - 1)
         fp == IF dots = {} THEN <<>> ELSE SubSeq(mant, MinS(dots) + 1, Len(mant))
         idig == SelectSeq(ip, IsDigC)
-        seps == {Count(SubSeq(ip, i + 1, Len(ip)), IsDigC) : i \in IndexSet(ip, LAMBDA c : c = 44)}
-        okc == /\ \A i \in 1..Len(ip) : IsDigC(ip[i]) \/ ip[i] = 44
-               /\ \A i \in 1..Len(fp) : IsDigC(fp[i])
+        fdig == SelectSeq(fp, IsDigC)
+        seps == {Count(SubSeq(ip, i + 1, Len(ip)), IsDigC) : i \in IndexSet(ip, LAMBDA c : c = F.grp)}
+        fseps == {Count(SubSeq(fp, 1, i - 1), IsDigC) : i \in IndexSet(fp, LAMBDA c : c = F.grp)}
+        okc == /\ \A i \in 1..Len(ip) : IsDigC(ip[i]) \/ ip[i] = F.grp
+               /\ \A i \in 1..Len(fp) : IsDigC(fp[i]) \/ fp[i] = F.grp
                /\ Cardinality(dots) <= 1 /\ Cardinality(eIdx) <= 1
                /\ (eIdx = {} \/ (exDs # <<>> /\ Len(exDs) <= 4 /\ \A i \in 1..Len(exDs) : IsDigC(exDs[i])))
-               /\ (ip = <<>> \/ (ip[1] # 44 /\ ip[Len(ip)] # 44))
-        exVal == LET F[i \in 0..Len(exDs)] == IF i = 0 THEN 0 ELSE F[i - 1] * 10 + (exDs[i] - 48) IN F[Len(exDs)]
-    IN  [ok |-> okc, idigits |-> [i \in 1..Len(idig) |-> idig[i] - 48], seps |-> seps, fdigits |-> [i \in 1..Len(fp) |-> fp[i] - 48],
+               /\ Cardinality(seps) = Count(ip, LAMBDA c : c = F.grp) /\ 0 \notin seps /\ Len(idig) \notin seps
+               /\ Cardinality(fseps) = Count(fp, LAMBDA c : c = F.grp) /\ 0 \notin fseps
+        exVal == LET G[i \in 0..Len(exDs)] == IF i = 0 THEN 0 ELSE G[i - 1] * 10 + (exDs[i] - F.zero) IN G[Len(exDs)]
+    IN  [ok |-> okc, idigits |-> [i \in 1..Len(idig) |-> idig[i] - F.zero], seps |-> seps, fseps |-> fseps, fdigits |-> [i \in 1..Len(fdig) |-> fdig[i] - F.zero],
          hasDot |-> dots # {}, ex |-> IF exNeg THEN 0 - exVal ELSE exVal, exDigits |-> Len(exDs), hasE |-> eIdx # {}]
 
-\* N4: "yes" | "no" | "unsure"
-ReadsBack(out, x0, pic) ==
+\* numbers are doubles: two decimals closer than this relative distance are the same number to the model
+\* (x times 10^-15, about nine units in the last place; scaling by 100, 1000 or powers of ten in binary arithmetic stays inside it)
+Slack(v) == Dec(1, v.ds, v.e - 15)
+DecAbsAdd(a, b) == LET e0 == IF a.e < b.e THEN a.e ELSE b.e IN Dec(1, BigAdd(Shl(a.ds, a.e - e0), Shl(b.ds, b.e - e0)), e0)
+
+\* N4: "yes" | "no:<which clause>" | "unsure"
+ReadsBack1(out, x0, neg, pic, F) ==
     LET x == DecNorm(x0)
-        sps == SubPictures(pic)
-        useSecond == x.sg < 0 /\ Len(sps) = 2
-        A == Analyse(IF useSecond THEN sps[2] ELSE sps[1])
-    IN  IF A.ok # "yes" THEN "unsure"
-        ELSE LET prefix == (IF x.sg < 0 /\ ~useSecond THEN <<45>> ELSE <<>>) \o A.prefix
+        sps == SubPictures(pic, F)
+        useSecond == neg /\ Len(sps) = 2
+        A == Analyse(IF useSecond THEN sps[2] ELSE sps[1], F)
+    IN  IF PictureValid(pic, F) # "yes" THEN "unsure"
+        ELSE LET prefix == (IF neg /\ ~useSecond THEN <<F.minus>> ELSE <<>>) \o A.prefix
                  n == Len(out)
-             IN  IF n < Len(prefix) + Len(A.suffix) \/ SubSeq(out, 1, Len(prefix)) # prefix \/ SubSeq(out, n - Len(A.suffix) + 1, n) # A.suffix THEN "no"
-                 ELSE LET P == ParseNumeralOut(SubSeq(out, Len(prefix) + 1, n - Len(A.suffix)))
-                      IN  IF ~P.ok THEN "no"
+             IN  IF n < Len(prefix) + Len(A.suffix) \/ SubSeq(out, 1, Len(prefix)) # prefix \/ SubSeq(out, n - Len(A.suffix) + 1, n) # A.suffix THEN "no:prefix-suffix-or-sign"
+                 ELSE LET P == ParseNumeralOut(SubSeq(out, Len(prefix) + 1, n - Len(A.suffix)), F)
+                      IN  IF ~P.ok THEN "no:not-a-numeral"
                           ELSE LET ni == Len(P.idigits)   nf == Len(P.fdigits)
-                                   \* the numeral's value and the value it must read back as
                                    numDigits == IF P.idigits \o P.fdigits = <<>> THEN <<0>> ELSE P.idigits \o P.fdigits
-                                   N == Dec(1, numDigits, (0 - nf) + (IF A.expDigits > 0 THEN P.ex ELSE 0))
+                                   pw == IF A.expDigits > 0 THEN P.ex ELSE 0
+                                   N == Dec(1, numDigits, pw - nf)
                                    v == Scale10(Dec(1, x.ds, x.e), A.scale)
-                                   unitExp == (0 - A.maxFrac) + (IF A.expDigits > 0 THEN P.ex ELSE 0)
-                                   half == Dec(1, <<5>>, unitExp - 1)
-                                   \* structure
-                                   digitsOk == ni >= A.minInt /\ nf >= A.minFrac /\ nf <= A.maxFrac /\ (ni = 0 \/ ni = A.minInt \/ P.idigits[1] # 0 \/ ni = 1)
+                                   half == Dec(1, <<5>>, pw - A.maxFrac - 1)
+                                   digitsOk == ni >= A.minInt /\ nf >= A.minFrac /\ nf <= A.maxFrac /\ (ni <= A.minInt \/ P.idigits[1] # 0)
                                    dotOk == P.hasDot = (nf > 0)
-                                   groupOk == IF A.gsize > 0 THEN P.seps = {A.gsize * k : k \in 1..((IF ni = 0 THEN 0 ELSE (ni - 1)) \div A.gsize)}
-                                              ELSE P.seps = {p \in A.groups : p < ni}
-                                   expOk == IF A.expDigits = 0 THEN ~P.hasE
-                                            ELSE P.hasE /\ P.exDigits >= A.expDigits
-                                                 /\ (x.sg = 0 \/ ni = A.sf \/ (A.sf = 0 /\ ni <= 1))              \* the mantissa has the picture's integer digits
-                                   valueOk == AbsWithin(N, v, half)
-                               IN  IF digitsOk /\ dotOk /\ groupOk /\ expOk /\ valueOk THEN "yes" ELSE "no"
+                                   regularSeps == {A.gsize * k : k \in 1..((IF ni = 0 THEN 0 ELSE ni - 1) \div (IF A.gsize = 0 THEN 1 ELSE A.gsize))}
+                                   literalSeps == {p \in A.groups : p < ni}
+                                   groupOk == IF A.gsize > 0 THEN (P.seps = regularSeps \/ (A.leftDigits > A.gsize /\ P.seps = literalSeps)) ELSE P.seps = literalSeps
+                                   fgroupOk == {p \in A.fgroups : p < nf} \subseteq P.fseps /\ P.fseps \subseteq {p \in A.fgroups : p <= nf}
+                                   expOk == IF A.expDigits = 0 THEN ~P.hasE ELSE P.hasE /\ P.exDigits >= A.expDigits /\ (x.sg # 0 \/ P.ex = 0 \/ IsZeroBig(numDigits))
+                                   valueOk == AbsWithin(N, v, DecAbsAdd(half, Slack(v)))
+                               IN  IF ~digitsOk THEN "no:digit-counts" ELSE IF ~dotOk THEN "no:decimal-separator"
+                                   ELSE IF ~groupOk \/ ~fgroupOk THEN "no:grouping" ELSE IF ~expOk THEN "no:exponent" ELSE IF ~valueOk THEN "no:value" ELSE "yes"
+\* the sign of a negative zero is left open
+ReadsBack(out, x0, pic, F) ==
+    IF DecNorm(x0).sg = 0 /\ x0.sg < 0
+    THEN LET a == ReadsBack1(out, x0, TRUE, pic, F)  b == ReadsBack1(out, x0, FALSE, pic, F) IN IF a = "yes" \/ b = "yes" THEN "yes" ELSE b
+    ELSE ReadsBack1(out, x0, x0.sg < 0, pic, F)
+
+\* ---- $number on decimals: the value of an accepted numeral [neg, ip, fp, eneg, ex] (code points) ----
+NumeralDec(neg, ip, fp, ex) == Dec(IF neg THEN 0 - 1 ELSE 1, [i \in 1..Len(ip \o fp) |-> (ip \o fp)[i] - 48], ex - Len(fp))
+SigDigits(x) == Len(DecNorm(x).ds)
 =============================================================================
